@@ -151,6 +151,18 @@ def handlers(layout="scoped", max_rec=1, retry_max=2, handler_fails=False, reent
     return {"timeout": None, "validation": validation, "steps": steps}
 
 
+def handlers_two_steps(max_rec=1):
+    """ONE handler owns two steps of one lineage: b fails -> handler -> C -> c fails -> the same handler again: its budget is
+    per handler along the lineage, whichever step failed."""
+    return {"timeout": None, "validation": True, "steps": {
+        "a": {"accepts": ["Start"], "nw": 1, "body": [G, {"op": "ret", "ty": "A"}]},
+        "b": {"accepts": ["A"], "nw": 1, "body": [G, {"op": "fail", "until": 99}, {"op": "stop"}]},
+        "c": {"accepts": ["C"], "nw": 1, "body": [G, {"op": "fail", "until": 99}, {"op": "stop"}]},
+        "hs": {"accepts": ["Failed"], "role": "catch_error", "for_steps": ["b", "c"], "max_rec": max_rec,
+               "body": [G, {"op": "ret", "ty": "C"}]},
+    }}
+
+
 def double_stop(nw=2):
     """two workers of b may both return a StopEvent."""
     return {"timeout": None, "steps": {
@@ -371,6 +383,8 @@ def family(name, quick=True):
             for max_rec in (1, 2):
                 out.append(("handlers(%s,max_rec=%d)" % (layout, max_rec), handlers(layout, max_rec), []))
         out.append(("handlers(scoped,reenter,2)", handlers("scoped", 2, reenter=True), []))
+        out.append(("handlers_two_steps(max_rec=1)", handlers_two_steps(1), []))
+        out.append(("handlers_two_steps(max_rec=2)", handlers_two_steps(2), []))
         out.append(("handlers(wildcard,handler_fails)", handlers("wildcard", 1, handler_fails=True), []))
         out.append(("handlers(both,scoped handler fails)", handlers("both", 1, handler_fails=True), []))
         out.append(("handlers(wildcard,handler_fails,max_rec=2)", handlers("wildcard", 2, handler_fails=True), []))
